@@ -1302,6 +1302,7 @@ def oracle(transport, items):
     bad = []
     seen = {}
     zero_reset = {}      # epoch -> a zero-both-counters step was executed
+    rewound = {}         # epoch -> a response was accepted by the rewind step
     episodes = []        # runs of consecutive open attempts on one channel
     failed = {}          # epoch -> index of the first recorded failure
     maxacc = {}
@@ -1363,8 +1364,12 @@ def oracle(transport, items):
                         cause = "zero-reset"
                     elif r - 5 <= n < r and len(cur_ep["tries"]) <= 1 + min(5, r):
                         cause = "rewind"
+                        rewound[it[1]] = True
                     elif zero_reset.get(it[1]):
                         cause = "after-zero-reset"
+                    elif rewound.get(it[1]) and n >= r:
+                        # the rewind left recv_ctr at (replayed nonce + 1): the responses after it open again in order
+                        cause = "rewind"
                 what = "again" if n in acc_set(items, idx, ch) else "out of order"
                 bad.append((f"{label}:replay-accepted:{cause}",
                             f"frame {n} of key (epoch {it[1]}, {it[2]}) accepted {what} (highest accepted before: {maxacc[ch]})"))
@@ -1650,23 +1655,31 @@ def run(ctx):
     cov = Coverage("distinct history (transport + event list) in which at least one frame was sealed or one open attempted")
     viols = {}
     full_depth, core_depth = (4, 5) if tier == "quick" else (5, 6)
-    n_rand = 1500 if tier == "quick" else 12000
+    n_rand = 1000 if tier == "quick" else 12000
     counts = {}
     mismatches = 0
     xsample = []
+    # quick tier: a few symbols whose behaviour is also covered by another sweep are left to the thorough tier
+    quick = tier == "quick"
+    drop = {"ip": {"S1025.0"}, "ble": {"S1.0"}, "coap": set()} if quick else {"ip": set(), "ble": set(), "coap": set()}
+    core_drop = {"ip": {"F1"}, "ble": {"F1"}, "coap": {"T"}} if quick else drop
+    evt_alpha = [a for a in COAP_EVT if not (quick and a == "EL0")]
+    seg_alpha = [a for a in IP_SEG if not (quick and a in ("N+N@2", "R0"))]
+    alpha_used = {}
     for transport in ("ip", "ble", "coap"):
-        hists = list(exhaustive(ALPHA[transport], full_depth))
+        alpha_used[transport] = [a for a in ALPHA[transport] if a not in drop[transport]]
+        hists = list(exhaustive(alpha_used[transport], full_depth))
         n_full = len(hists)
-        hists += [list(t) for t in itertools.product(CORE[transport], repeat=core_depth)]
+        hists += [list(t) for t in itertools.product([a for a in CORE[transport] if a not in core_drop[transport]], repeat=core_depth)]
         if transport == "coap":
-            hists += [list(t) for t in itertools.product(COAP_EVT, repeat=core_depth)]
+            hists += [list(t) for t in itertools.product(evt_alpha, repeat=core_depth)]
             hists += list(exhaustive(COAP_SUBS, core_depth))
         if transport == "ip":
-            hists += list(exhaustive(IP_SEG, full_depth))
+            hists += list(exhaustive(seg_alpha, full_depth))
         if transport in SESS:
             hists += list(exhaustive(SESS[transport], full_depth))
         if transport == "ble":
-            hists += list(exhaustive(BLE_FAULT, full_depth))
+            hists += list(exhaustive(BLE_FAULT, 4))
         n_core = len(hists) - n_full
         hists += DIRECTED[transport]
         hists += random_histories(transport, rng(seed, "c06" + transport), n_rand, 60)
@@ -1730,8 +1743,8 @@ def run(ctx):
         "additionally every history of length <= %d over the subscription alphabet %s (real CoAPPairing.subscribe/unsubscribe on one session); "
         "IP and CoAP additionally every history of length <= %d over the session alphabets %s (RR = reconnect against a peer replaying a "
         "recorded pair-verify, N4 = 4.04 response)"
-        % (full_depth, ALPHA, core_depth, CORE, core_depth, COAP_EVT, full_depth, IP_SEG, full_depth, BLE_FAULT, core_depth, COAP_SUBS,
-           full_depth, SESS))
+        % (full_depth, alpha_used, core_depth, {k: [a for a in v if a not in core_drop[k]] for k, v in CORE.items()}, core_depth, evt_alpha,
+           full_depth, seg_alpha, 4, BLE_FAULT, core_depth, COAP_SUBS, full_depth, SESS))
     cov.extra["case_counts"] = counts
     cov.extra["disagreements_checked"] = mismatches
     cov.extra["compared"] = "seal log, wire log, open attempts (nonce, success), accepted frame identities, per-request outcome class"
